@@ -195,6 +195,10 @@ def _die_with_parent():
         finally:
             os._exit(3)
     signal.signal(signal.SIGTERM, _term)
+    # the handler must NOT be inherited by forked children (manager servers of the code under test, forked
+    # workers of C16): multiprocessing terminate()s a slow manager with SIGTERM, which would otherwise kill
+    # the whole worker group and lose the shard's result
+    os.register_at_fork(after_in_child=lambda: signal.signal(signal.SIGTERM, signal.SIG_DFL))
     try:
         ctypes.CDLL("libc.so.6", use_errno=True).prctl(1, signal.SIGTERM)   # PR_SET_PDEATHSIG
     except Exception:
